@@ -1126,6 +1126,16 @@ def classify_bool_expr(d):
                     return (short + '0', False)
             return ('unrec:count-compare', True)
         if fa == 'capacity' and b[0] == 'const':
+            if is_const(b, 0):
+                if op in ('Eq', 'Le'):
+                    return ('cap0', True)
+                if op in ('Ne', 'Gt'):
+                    return ('cap0', False)
+            if is_const(b, 1):
+                if op == 'Lt':
+                    return ('cap0', True)
+                if op == 'Ge':
+                    return ('cap0', False)
             if b[2] == '18446744073709551615':
                 if op == 'Eq':
                     return ('cap_max', True)
